@@ -123,3 +123,33 @@ def choose_cfg(types, instrs, candidates, budget):
         if structures(types, instrs, c) <= budget:
             best = c
     return best
+
+
+def calls_bound(types, instrs, maxcount):
+    """upper bound on the number of public reader/writer method calls one (de)serialization of a unit makes
+    (string writes count twice: add_string delegates to the overridable add_bytes)"""
+    def of_type(t):
+        if t[0] == "struct":
+            return calls_bound(types, types[t[1]][1], maxcount)
+        if t[0] in ("str", "blob"):
+            return 2
+        return 1
+    total = 0
+    for ins in instrs:
+        k = ins[0]
+        if k == "field":
+            total += of_type(ins[2])
+        elif k == "length":
+            total += 1
+        elif k == "array":
+            n = ins[3][1] if (ins[3] is not None and ins[3][0] == "const") else maxcount
+            total += n * (of_type(ins[2]) + (1 if ins[5] else 0))
+        elif k == "dummy":
+            total += of_type(ins[1])
+        elif k == "break":
+            total += 1
+        elif k == "chunked":
+            total += calls_bound(types, ins[1], maxcount)
+        elif k == "switch":
+            total += max([calls_bound(types, c[3], maxcount) for c in ins[2]] + [0])
+    return total
